@@ -904,8 +904,9 @@ void svtav1_predict_inter_block_plane(DecModCtxt *dec_mod_ctx, EbDecHandle *dec_
         int32_t do_warp = (bw >= 8 && bh >= 8 && !build_for_obmc &&
                            (cur_frm_hdr->force_integer_mv == 0) &&
                            (((mode == GLOBALMV || mode == GLOBAL_GLOBALMV) &&
-                             (wm_global->wmtype > TRANSLATION)) ||
-                            (mi->motion_mode == WARPED_CAUSAL)));
+                             (wm_global->wmtype > TRANSLATION) && !wm_global->invalid) ||
+                            (mi->motion_mode == WARPED_CAUSAL &&
+                             !part_info->local_warp_params.invalid)));
 
         void *  src;
         int32_t src_stride;
